@@ -9,6 +9,7 @@
 package jwtclock
 
 import (
+	"bytes"
 	"encoding/json"
 	"fmt"
 	"sort"
@@ -17,6 +18,10 @@ import (
 	"time"
 
 	"github.com/tink-crypto/tink-go/v2/jwt"
+	"github.com/tink-crypto/tink-go/v2/jwt/jwtecdsa"
+	"github.com/tink-crypto/tink-go/v2/jwt/jwtmldsa"
+	"github.com/tink-crypto/tink-go/v2/jwt/jwtrsassapkcs1"
+	"github.com/tink-crypto/tink-go/v2/jwt/jwtrsassapss"
 	"github.com/tink-crypto/tink-go/v2/keyset"
 	"github.com/tink-crypto/tink-go/v2/verifsim/catalog"
 	"github.com/tink-crypto/tink-go/v2/verifsim/core"
@@ -59,7 +64,7 @@ func TestMain(m *testing.M) {
 	core.DeclareProbes("decisive-exp-boundary", "decisive-nbf-boundary", "decisive-iat-boundary",
 		"skew-0", "skew-1ns", "skew-1s", "skew-10min", "skew-other", "skew-10min+1ns-refused", "skew-10min+1s-refused", "conflicting-options-refused", "deprecated-audiences-option",
 		"validator-reused-at-later-instant", "fixednow-at-another-clock", "issued-by-tink", "issued-by-harness-encoder", "returned-claims-compared",
-		"returned-custom-claim-string", "returned-custom-claim-number", "returned-custom-claim-bool", "returned-custom-claim-null", "returned-custom-claim-array", "returned-custom-claim-object", "jwk-transport", "jwk-export-of-private-keyset-refused", "jwk-export-of-mac-keyset-refused", "jwk-export-refused-mldsa", "jwk-tinkkid-becomes-customkid",
+		"returned-custom-claim-string", "returned-custom-claim-number", "returned-custom-claim-bool", "returned-custom-claim-null", "returned-custom-claim-array", "returned-custom-claim-object", "jwk-transport", "jwk-export-of-private-keyset-refused", "jwk-export-of-mac-keyset-refused", "jwk-export-refused-mldsa", "jwk-tinkkid-becomes-customkid", "jwk-roundtrip-signed-token-verified", "unsettled-iat-missing", "unsettled-reencoded-base64",
 		"custom-kid-key", "tink-kid-key", "ignored-kid-key", "shared-material-keys", "accepted-by-non-first-key", "token-of-foreign-key", "token-of-disabled-key",
 		"header-of-another-keyset-key", "exp-at-max-timestamp", "far-future-leap", "family-HS", "family-ES", "family-RS", "family-PS", "family-ML", "mixed-family-keyset",
 		"accept", "reject", "expired-on-arrival", "aud-list-last-matches", "empty-string-expectation")
@@ -108,8 +113,9 @@ type world struct {
 	ksMAC     jwt.MAC
 	ksSigner  jwt.Signer
 	verifier  func(string, *jwt.Validator) (*jwt.VerifiedJWT, error)
-	transport string // "direct" | "jwk"
-	refKeys   []jwtref.Key
+	transport string       // "direct" | "jwk"
+	refKeys   []jwtref.Key // the verifier's keyset as it is (after a JWK transport: as read from the imported handle)
+	srcKeys   []jwtref.Key // the keyset the tokens are signed with
 
 	tokens []*tokenPlan
 	vals   []*valPlan
@@ -329,6 +335,7 @@ func (w *world) drawKeys() {
 	w.handle = h
 	for _, k := range w.keys {
 		w.refKeys = append(w.refKeys, k.ref())
+		w.srcKeys = append(w.srcKeys, k.ref())
 		w.r.Logf("key %s id=%d", k, k.ksID)
 	}
 }
@@ -749,11 +756,17 @@ func (w *world) buildVerifier() {
 			}
 			vh = imp
 			w.transport = "jwk"
-			w.refKeys = jwtref.TransportJWK(w.refKeys)
+			// The property gives no rule for how an exported kid binds after import: the
+			// verifier's keyset is taken as it IS (algorithm, kid strategy, kid and status
+			// read from the imported handle). What the property does demand — every token
+			// the private keyset signs verifies — is enforced in decide().
+			w.refKeys = w.importedKeys(imp)
 			r.Probe("jwk-transport")
-			for _, k := range w.keys {
-				if k.enabled && k.rule == jwtref.KIDFromKeyID {
-					r.Probe("jwk-tinkkid-becomes-customkid")
+			for _, k := range w.refKeys {
+				for _, o := range w.keys {
+					if o.enabled && o.rule == jwtref.KIDFromKeyID && o.mat.name == k.Material && k.Rule == jwtref.KIDCustom && k.KID == o.kid {
+						r.Probe("jwk-tinkkid-becomes-customkid")
+					}
 				}
 			}
 			r.Logf("verifier keyset went through a JWK set: %.400s", set)
@@ -771,37 +784,18 @@ func (w *world) buildVerifier() {
 	w.verifier = v.VerifyAndDecode
 }
 
-// checkJWKSet looks at the exported JSON: one entry per enabled key in keyset
-// order, the key's algorithm, a kid exactly for keys that have one, no private members.
+// checkJWKSet: an export of a public keyset carries no private key members.
+// Nothing else about the document (order, layout, which members name the key)
+// is constrained by the property; a document this reader cannot walk is left
+// to the import and to the round-trip decisions.
 func (w *world) checkJWKSet(set []byte) {
 	var doc struct {
 		Keys []map[string]any `json:"keys"`
 	}
 	if err := json.Unmarshal(set, &doc); err != nil {
-		w.r.Violation("C09/jwk-set-malformed", fmt.Sprintf("%v: %.200s", err, set))
 		return
 	}
-	var en []*wkey
-	for _, k := range w.keys {
-		if k.enabled {
-			en = append(en, k)
-		}
-	}
-	if len(doc.Keys) != len(en) {
-		w.r.Violation("C09/jwk-set-key-count", fmt.Sprintf("%d entries for %d enabled keys", len(doc.Keys), len(en)))
-		return
-	}
-	for i, k := range en {
-		e := doc.Keys[i]
-		if e["alg"] != k.alg {
-			w.r.Violation("C09/jwk-set-alg", fmt.Sprintf("entry %d has alg %v, key is %s", i, e["alg"], k))
-			return
-		}
-		kid, has := e["kid"]
-		if (k.rule != jwtref.KIDIgnored) != has || (has && kid != k.kid) {
-			w.r.Violation("C09/jwk-set-kid", fmt.Sprintf("entry %d has kid %v (present=%v), key is %s", i, kid, has, k))
-			return
-		}
+	for i, e := range doc.Keys {
 		for _, priv := range []string{"d", "p", "q", "dp", "dq", "qi", "k", "oth"} {
 			if _, bad := e[priv]; bad {
 				w.r.Violation("C09/jwk-set-private-member", fmt.Sprintf("entry %d carries %q", i, priv))
@@ -809,6 +803,66 @@ func (w *world) checkJWKSet(set []byte) {
 			}
 		}
 	}
+}
+
+// importedKeys describes a verifier keyset by what its entries say about
+// themselves; key material is recognised by its public bytes.
+func (w *world) importedKeys(h *keyset.Handle) []jwtref.Key {
+	var out []jwtref.Key
+	for i := 0; i < h.Len(); i++ {
+		e, err := h.Entry(i)
+		if err != nil {
+			w.t.Fatalf("harness: imported handle entry %d: %v", i, err)
+		}
+		rk := jwtref.Key{Enabled: e.KeyStatus() == keyset.Enabled, Material: fmt.Sprintf("imported-unrecognised-%d", i)}
+		var pub []byte
+		var fam, strategy, kid string
+		var hasKID bool
+		switch k := e.Key().(type) {
+		case *jwtecdsa.PublicKey:
+			p := k.Parameters().(*jwtecdsa.Parameters)
+			fam, rk.Alg, strategy, pub = "ES", p.Algorithm().String(), p.KIDStrategy().String(), k.PublicPoint()
+			kid, hasKID = k.KID()
+		case *jwtrsassapkcs1.PublicKey:
+			p := k.Parameters().(*jwtrsassapkcs1.Parameters)
+			fam, rk.Alg, strategy, pub = "RS", p.Algorithm().String(), p.KIDStrategy().String(), k.Modulus()
+			kid, hasKID = k.KID()
+		case *jwtrsassapss.PublicKey:
+			p := k.Parameters().(*jwtrsassapss.Parameters)
+			fam, rk.Alg, strategy, pub = "PS", p.Algorithm().String(), p.KIDStrategy().String(), k.Modulus()
+			kid, hasKID = k.KID()
+		case *jwtmldsa.PublicKey:
+			p := k.Parameters().(*jwtmldsa.Parameters)
+			fam, rk.Alg, strategy, pub = "ML", p.Algorithm().String(), p.KIDStrategy().String(), k.KeyBytes()
+			kid, hasKID = k.KID()
+		}
+		switch {
+		case strategy == "Base64EncodedKeyIDAsKID" && hasKID:
+			rk.Rule, rk.KID = jwtref.KIDFromKeyID, kid
+		case strategy == "CustomKID" && hasKID:
+			rk.Rule, rk.KID = jwtref.KIDCustom, kid
+		default:
+			rk.Rule = jwtref.KIDIgnored
+		}
+		for _, m := range w.mats {
+			if m.fam == fam && len(pub) > 0 && bytes.Equal(bytes.TrimLeft(m.pub, "\x00"), bytes.TrimLeft(pub, "\x00")) {
+				rk.Material = m.name
+			}
+		}
+		out = append(out, rk)
+		w.r.Logf("imported key %d: %s/%s/%s(%q) enabled=%v", i, rk.Material, rk.Alg, rk.Rule, rk.KID, rk.Enabled)
+	}
+	return out
+}
+
+func verdict(d jwtref.Decision) string {
+	switch {
+	case d.Accept:
+		return "accept"
+	case d.Either:
+		return "either"
+	}
+	return "reject"
 }
 
 func distClass(d int64) string {
@@ -859,6 +913,16 @@ func (w *world) decide(ev event, now time.Time, fixed bool) {
 		return // issuing already failed
 	}
 	want := jwtref.Decide(tp.model, w.refKeys, vp.o, now)
+	roundTrip := false
+	if w.transport == "jwk" && tp.tamper == "none" && w.keys[tp.signer].enabled && !want.Accept {
+		// "a public keyset exported to a JWK set and imported back verifies every token its
+		// private keyset signs": an untouched token of an enabled key that the keyset's own
+		// public side has to accept must be accepted after the transport, whatever the
+		// imported keys look like.
+		if d := jwtref.Decide(tp.model, w.srcKeys, vp.o, now); d.Accept {
+			want, roundTrip = d, true
+		}
+	}
 	var v *jwt.Validator
 	path := "time.Now"
 	if fixed {
@@ -891,15 +955,30 @@ func (w *world) decide(ev event, now time.Time, fixed bool) {
 	}()
 	got := err == nil
 	w.decisions++
-	w.digest = (w.digest ^ uint64(int64(ev.seq)<<3|int64(b2i(fixed))<<2|int64(b2i(want.Accept))<<1|int64(b2i(got)))) * 1099511628211
+	w.digest = (w.digest ^ uint64(int64(ev.seq)<<3|int64(b2i(fixed))<<2|int64(b2i(want.Accept))<<1|int64(b2i(got))|int64(b2i(want.Either))<<40)) * 1099511628211
 	tc := relClass("exp", want.Exp) + " " + relClass("nbf", want.Nbf) + " " + relClass("iat", want.Iat)
 	if r.Tracing() {
-		r.Logf("t0+%v %-8s token %d validator %d via %s: model %v (%s) [%s], tink err=%v", now.Sub(t0), ev.kind, ev.tok, ev.val, path, want.Accept, want.Reason, tc, err)
+		r.Logf("t0+%v %-8s token %d validator %d via %s: model %v (%s) [%s], tink err=%v", now.Sub(t0), ev.kind, ev.tok, ev.val, path, verdict(want), want.Reason, tc, err)
 	}
 	ctx := fmt.Sprintf("now=t0+%v (%s) via %s, event %s, token %d %q signed by %s tamper=%s, keyset(%s) %v, validator {%s}, time rules [%s]",
 		now.Sub(t0), now.Format(time.RFC3339Nano), path, ev.kind, tp.idx, abbreviate(tp.compact), tp.by, tp.tamper, w.transport, w.keys, vp.describe(), tc)
 	near := (want.Exp.Checked && want.Exp.Dist <= 1) || (want.Nbf.Checked && want.Nbf.Dist <= 1) || (want.Iat.Checked && want.Iat.Dist <= 1)
 	switch {
+	case want.Either:
+		// the statement does not settle this case; an accepted token must still carry the signed payload
+		if strings.HasPrefix(string(want.Reason), "iat-missing") {
+			r.Probe("unsettled-iat-missing")
+		} else {
+			r.Probe("unsettled-reencoded-base64")
+		}
+		if got {
+			r.Count("unsettled-case:library-accepts", 1)
+			w.checkAccepted(vj, tp, ctx)
+		} else {
+			r.Count("unsettled-case:library-rejects", 1)
+		}
+	case want.Accept && !got && roundTrip:
+		r.Violation("C09/jwk-roundtrip-rejects-signed-token", fmt.Sprintf("tink: %v; verifier keyset after import %+v; %s", err, w.refKeys, ctx))
 	case want.Accept && !got:
 		cls := tp.tamper
 		if near {
@@ -917,10 +996,15 @@ func (w *world) decide(ev event, now time.Time, fixed bool) {
 		tp.accepted++
 	}
 	// statistics
+	if want.Accept && got && w.transport == "jwk" && tp.tamper == "none" {
+		r.Probe("jwk-roundtrip-signed-token-verified")
+	}
 	out := "rej"
 	if want.Accept {
 		out = "acc"
 		r.Probe("accept")
+	} else if want.Either {
+		out = "either"
 	} else {
 		r.Probe("reject")
 	}
@@ -982,22 +1066,19 @@ func (w *world) decide(ev event, now time.Time, fixed bool) {
 	}
 }
 
-// refusals checks what NewValidator has to refuse.
+// refusals records what NewValidator refuses. Nothing here is an assertion:
+// tink's 10-minute skew limit exists only as a constant and an error text in
+// jwt_validator.go (no doc comment on ValidatorOpts / NewValidator states it),
+// and the property says nothing about contradictory options.
 func (w *world) refusals() {
 	r := w.r
 	for _, c := range []struct {
 		d     time.Duration
 		probe string
-	}{{10*time.Minute + 1, "skew-10min+1ns-refused"}, {10*time.Minute + time.Second, "skew-10min+1s-refused"}, {time.Hour, ""}} {
-		v, err := jwt.NewValidator(&jwt.ValidatorOpts{ClockSkew: c.d, AllowMissingExpiration: true})
-		if err == nil || v != nil {
-			r.Violation("C09/excessive-clock-skew-accepted", fmt.Sprintf("NewValidator accepted ClockSkew=%v (documented maximum 10 minutes)", c.d))
-		} else if c.probe != "" {
+	}{{10*time.Minute + 1, "skew-10min+1ns-refused"}, {10*time.Minute + time.Second, "skew-10min+1s-refused"}} {
+		if _, err := jwt.NewValidator(&jwt.ValidatorOpts{ClockSkew: c.d, AllowMissingExpiration: true}); err != nil {
 			r.Probe(c.probe)
 		}
-	}
-	if v, err := jwt.NewValidator(&jwt.ValidatorOpts{ClockSkew: 10 * time.Minute}); err != nil || v == nil {
-		r.Violation("C09/legal-validator-refused", fmt.Sprintf("ClockSkew of exactly 10 minutes: %v", err))
 	}
 	// contradictory options: the property does not say what happens; tink refuses them
 	s := "x"
